@@ -277,6 +277,35 @@ def check_typing(ctx, tu):
                     ops += 1
                     bad.append((x, chain))
         n += 1
+        # an intermediate index quantity kept in a 32-bit variable: a 64-bit value narrowed into a local that then takes part in
+        # further index arithmetic (the narrowing of a final *coordinate* into a vec3i is not this case)
+        narrowed = []
+        body_ = tu.body(f)
+        for d in tu.walk(body_):
+            if d.get('kind') != 'VarDecl' or not tu.kids(d) or 'id' not in d:
+                continue
+            vt = d.get('type', {}).get('qualType', '').replace('const ', '').strip()
+            init = tu.strip(tu.kids(d)[-1])
+            if vt not in NARROW or init is None or tu.sd(init).get('ct', '') not in WIDE or tu.sd(init).get('cv') is not None:
+                continue
+            for u_ in tu.walk(body_):
+                if u_.get('kind') == 'DeclRefExpr' and u_.get('referencedDecl', {}).get('id') == d['id']:
+                    par = tu.par(u_)
+                    hops = 0
+                    while par is not None and par.get('kind') in ('ImplicitCastExpr', 'ParenExpr') and hops < 4:
+                        par = tu.par(par)
+                        hops += 1
+                    if par is not None and par.get('kind') == 'BinaryOperator' and par.get('opcode') in ('/', '%', '*', '+', '-'):
+                        narrowed.append((d, init, par))
+                        break
+        if narrowed:
+            d, init, use = narrowed[0]
+            ctx.violation(R, inst, 'the 64-bit value `%s` is stored in the %s variable `%s` and then used in `%s`: an intermediate index '
+                          'quantity (not a coordinate) is narrowed to 32 bits - it exceeds INT_MAX for extents with more than 2^31 rows, so '
+                          'the result is not computed in 64 bits' % (tu.show(init), d.get('type', {}).get('qualType', ''), d.get('name'),
+                                                                    tu.show(use)), tu.loc(init),
+                          key='%s|%s|%s|narrow-variable' % (R, tu.fn_file(f), pat(tu, f)))
+            continue
         if bad:
             x, chain = bad[0]
             via = ''
@@ -945,6 +974,82 @@ def check_for_each(ctx, tu):
     ctx.floor(R, n, 4, 'for_each instantiations in %s (2 loop nests + 2 wrappers; 6 on the pinned tree)' % AST_DRIVER)
 
 
+def check_iterator_lifetime(ctx, tu):
+    """R-C17-4 (lifetime): a multidim_index_iterator that keeps the *address* of a constructor argument must never be built
+    from a temporary and then returned: the value of ++it / --it / begin() / end() would refer to a destroyed object"""
+    R = 'R-C17-4'
+    ITER = 'rkcommon::multidim_index_iterator'
+    ctors = [f for f in tu.functions.values() if not f['dep'] and f.get('ctor') and strip_targs(f['q']).startswith(ITER + '::')]
+    retains = {}          # ctor id -> set of parameter indices whose address (or reference) is stored in the object
+    for _ in range(3):
+        for f in ctors:
+            top = tu.node(f['id'])
+            pidx = {p_['id']: i for i, p_ in enumerate(f['params'])}
+            got = set(retains.get(f['id'], set()))
+            for x in (top.get('inner', []) if top else []):
+                if not (isinstance(x, dict) and x.get('kind') == 'CXXCtorInitializer'):
+                    continue
+                ks = tu.kids(x)
+                if not ks:
+                    continue
+                e = tu.strip(ks[0], casts=True)
+                if x.get('anyInit'):
+                    fty = ''
+                    # member of pointer / reference type initialised with &param or param (reference member)
+                    if e.get('kind') == 'UnaryOperator' and e.get('opcode') == '&':
+                        r_ = tu.strip(tu.kids(e)[0], casts=True)
+                        if r_.get('kind') == 'DeclRefExpr' and r_.get('referencedDecl', {}).get('id') in pidx:
+                            got.add(pidx[r_['referencedDecl']['id']])
+                else:
+                    # delegating / base constructor: a parameter passed on to a retaining parameter
+                    if e.get('kind') in ('CXXConstructExpr', 'CXXTemporaryObjectExpr'):
+                        c = tu.callee_fn(e)
+                        if c is not None and c['id'] in retains:
+                            for j, av in enumerate(tu.kids(e)):
+                                r_ = tu.strip(av, casts=True)
+                                if j in retains[c['id']] and r_ is not None and r_.get('kind') == 'DeclRefExpr' and \
+                                        r_.get('referencedDecl', {}).get('id') in pidx:
+                                    got.add(pidx[r_['referencedDecl']['id']])
+            if got:
+                retains[f['id']] = got
+    n = 0
+    for f in tu.functions.values():
+        if f['dep'] or tu.body(f) is None:
+            continue
+        q0 = strip_targs(f['q'])
+        if not (q0.startswith(ITER + '::') or q0.startswith('rkcommon::multidim_index_sequence::')) or f.get('ctor'):
+            continue
+        rets = [x for x in tu.walk(tu.body(f)) if x.get('kind') == 'ReturnStmt' and tu.kids(x)]
+        if not rets:
+            continue
+        n += 1
+        inst = 'lifetime of the iterator returned by %s %s' % (f['q'].replace('rkcommon::', ''), f['fty'][:50])
+        bad = None
+        for rt in rets:
+            for x in tu.walk(rt):
+                if x.get('kind') not in ('CXXConstructExpr', 'CXXTemporaryObjectExpr') or 'id' not in x:
+                    continue
+                c = tu.callee_fn(x)
+                if c is None or c['id'] not in retains:
+                    continue
+                for j, av in enumerate(tu.kids(x)):
+                    if j in retains[c['id']] and av.get('kind') == 'MaterializeTemporaryExpr':
+                        src = tu.strip(av, casts=True)
+                        bad = (x, av, src, c['params'][j]['name'])
+        if bad:
+            x, av, src, pname = bad
+            ctx.violation(R, inst, 'the returned iterator is constructed from the temporary `%s` (type %s), and its constructor stores the '
+                          'address of that argument (parameter `%s`): the temporary is destroyed at the end of the return statement, so '
+                          'the value of this call refers to a dead object (*++it, it = ++it, auto next = ++it read freed stack memory)'
+                          % (tu.show(src)[:80], av.get('type', {}).get('qualType', '?'), pname), tu.loc(x),
+                          key='%s|%s|%s|dangling-temporary' % (R, SEQ, pat(tu, f)))
+        elif retains:
+            ctx.ok(R, inst, 'no returned iterator is built from a temporary whose address it keeps', tu.fn_loc(f), nontrivial=False)
+    if not retains:
+        ctx.ok(R, 'iterator constructors', 'no constructor keeps the address of an argument (the iterator owns a copy of the extents)',
+               SEQ, nontrivial=False)
+
+
 def float_atoms(t):
     """atoms that convert between integers and floating point"""
     return [a for a in I.all_atoms(t) if re.match(r'^(fptoui|fptosi|uitofp|sitofp)', a.func.__name__)]
@@ -1469,13 +1574,76 @@ def check_shift_range(ctx, tu):
 # ============================================================================================
 #  R-C17-6  getValueRange accumulates with the join of the range lattice
 # ============================================================================================
+INT_TYPES = {'char': (8, True), 'signed char': (8, True), 'unsigned char': (8, False), 'short': (16, True), 'unsigned short': (16, False),
+             'int': (32, True), 'unsigned int': (32, False), 'long': (64, True), 'unsigned long': (64, False),
+             'long long': (64, True), 'unsigned long long': (64, False), 'bool': (1, False)}
+
+
+def monotone_conversion(src, dst):
+    """True / False / None: is the value conversion src -> dst order preserving for all values of src?"""
+    if src == dst:
+        return True
+    fl = ('float', 'double', 'long double')
+    if src in INT_TYPES and dst in fl:
+        return True
+    if src in fl and dst in fl:
+        return True
+    if src in INT_TYPES and dst in INT_TYPES:
+        sb, ss = INT_TYPES[src]
+        db, ds = INT_TYPES[dst]
+        if ds:
+            return db > sb or (db == sb and ss)
+        return (not ss) and db >= sb
+    return None
+
+
+def check_value_range_override(ctx, tu, f, R):
+    """an adaptor that answers getValueRange itself must still bound the values its own get() returns"""
+    cls = strip_targs(f['q']).split('::')[-2]
+    inst = f['q'].replace('rkcommon::array3D::', '')
+    key = '%s|%s|%s::getValueRange|' % (R, A3D, cls)
+    env, stmts, rets = fn_statements(tu, f)
+    if stmts or len(rets) != 1:
+        ctx.undecided(R, inst, 'override is not a single return statement', tu.fn_loc(f))
+        return
+    t = nf(tu, rets[0], env)
+    b, e = (('ref', 'ParmVarDecl', p_['name']) for p_ in f['params'])
+    if t[0] == 'call' and strip_targs(t[1]) == 'rkcommon::array3D::Array3D::getValueRange' and t[2] == ('this',) and t[3] == (b, e):
+        ctx.ok(R, inst, 'forwards to the generic implementation, which visits the adaptor\'s own get()', tu.fn_loc(f))
+        return
+    dele, _, _ = delegate_field(tu, f)
+    inner = ('call', 'rkcommon::array3D::Array3D::getValueRange', ('deref', ('mem', ('this',), dele)), (b, e)) if dele else None
+    tc = drop_casts(t)
+    if inner is not None and tc[0] == 'ctor' and tc[1].endswith('range_t') and len(tc[2]) == 2 and \
+            tc[2][0] == ('mem', inner, 'lower') and tc[2][1] == ('mem', inner, 'upper'):
+        r = tu.records.get(f.get('recid')) or {}
+        targs = [a_.get('t') for a_ in r.get('targs', []) if 't' in a_]
+        if len(targs) == 2:
+            mono = monotone_conversion(targs[0], targs[1])
+            if mono is True:
+                ctx.ok(R, inst, 'converts the two bounds of the wrapped array\'s range; the conversion %s -> %s is order preserving'
+                       % (targs[0], targs[1]), tu.fn_loc(f))
+            elif mono is False:
+                ctx.violation(R, inst, 'returns (out_t)lower, (out_t)upper of the wrapped array\'s range, but the cells this adaptor returns are '
+                              '(out_t)value and the conversion %s -> %s is not order preserving (it wraps): the converted bounds neither '
+                              'bound the converted values nor are they tight (the interval can even be inverted); valid only for monotone '
+                              'conversions' % (targs[0], targs[1]), tu.loc(rets[0]), key=key + 'bounds-conversion')
+            else:
+                ctx.undecided(R, inst, 'bounds conversion %s -> %s: monotonicity not known' % (targs[0], targs[1]), tu.fn_loc(f))
+            return
+    ctx.undecided(R, inst, 'override returns %s' % show(t), tu.fn_loc(f))
+
+
 def check_value_range(ctx, tu):
     R = 'R-C17-6'
     ctx.describe(R, 'getValueRange: after each visited value t the running range satisfies lower <= t <= upper (extend(), two independent '
                     'tests, or if / else-if on a range that already holds a value)')
     n = 0
-    for f in find_fns(tu, r'^rkcommon::array3D::Array3D<.*>::getValueRange$'):
+    for f in find_fns(tu, r'^rkcommon::array3D::\w+<.*>::getValueRange$'):
         if len(f['params']) != 2:
+            continue
+        if strip_targs(f['q']).split('::')[-2] != 'Array3D':
+            check_value_range_override(ctx, tu, f, R)
             continue
         n += 1
         inst = '%s' % f['q'].replace('rkcommon::array3D::', '')
@@ -1712,6 +1880,7 @@ def run(ctx):
     check_left_inverse(ctx, ir)
     adims = check_formulas(ctx, ir)
     check_for_each(ctx, tu)
+    check_iterator_lifetime(ctx, tu)
     check_iterators(ctx, ir)
     check_adaptors(ctx, tu)
     check_shift_range(ctx, tu)
